@@ -13,7 +13,7 @@
 (*        "typed": []int / []string / [][]int, "ptr": []*int (a nil       *)
 (*        element = nil pointer), "any": []any (elements: any leaf or nil);*)
 (*        slack = spare backing capacity the slice was allocated with      *)
-(*   [t |-> "mp", ks, vs]         map[string]int: keys ks, values vs       *)
+(*   [t |-> "mp", vp, ks, vs]     map[string]int (vp: map[string]*int): keys ks, values vs *)
 (*   [t |-> "mpa", ks, e]         map[string]any: keys ks, values e (leaves or nil) *)
 (*   [t |-> "st", a, p, c, sty]   struct{A int; p string (unexported); C string}; *)
 (*        sty = "plain", or "embp" / "embx": the middle field is an EMBEDDED   *)
@@ -27,7 +27,7 @@ Canon(n) ==
     [] n.t = "nil"  -> [t |-> "nil"]
     [] n.t = "ptr"  -> Canon(n.x)          \* documented: pointers are dereferenced at any depth before comparing
     [] n.t = "sl"   -> [t |-> "sl", e |-> [i \in 1..Len(n.e) |-> Canon(n.e[i])]]   \* array or slice, element typing and backing capacity are not part of the value
-    [] n.t = "mp"   -> [t |-> "mp", kv |-> {<<n.ks[i], n.vs[i]>> : i \in 1..Len(n.ks)}]      \* a map is unordered
+    [] n.t = "mp"   -> [t |-> "mp", vp |-> n.vp, kv |-> {<<n.ks[i], n.vs[i]>> : i \in 1..Len(n.ks)}]      \* a map is unordered; vp: map[string]*int (another type than map[string]int)
     [] n.t = "mpa"  -> [t |-> "mpa", kv |-> {<<n.ks[i], Canon(n.e[i])>> : i \in 1..Len(n.ks)}]
     [] n.t = "st"   -> [t |-> "st", a |-> n.a, c |-> n.c, sty |-> n.sty]                   \* the unexported field is skipped
     [] n.t = "stk"  -> [t |-> "stk", k |-> n.k, cap |-> n.cap, e |-> [i \in 1..Len(n.e) |-> Canon(n.e[i])]]
